@@ -184,7 +184,7 @@ pub fn run(ctx: &mut Ctx) {
         }
         single(ctx, vec![sig], mode, "single-signal", false);
     });
-    let nr = ctx.n(800, 5000);
+    let nr = ctx.n(800, 20_000);
     ctx.family("random-mask", nr, |ctx, rng, i| {
         let all = i % 10 == 0;
         let mask: Vec<i32> = (1..=64).filter(|&s| blockable(s) && (all || rng.chance(500))).collect();
@@ -192,8 +192,8 @@ pub fn run(ctx: &mut Ctx) {
         ctx.distinct(&format!("rnd|{:?}|{}", mask, mode));
         single(ctx, mask, mode, if i % 2 == 0 { "random-mask" } else { "secondary-thread" }, i % 2 == 1);
     });
-    let np = ctx.n(300, 1500);
+    let np = ctx.n(300, 6000);
     ctx.family("pipeline", np, pipeline);
-    let nb = ctx.n(200, 600);
+    let nb = ctx.n(200, 3000);
     ctx.family("behavioural", nb, behavioural);
 }
